@@ -15,6 +15,9 @@ CHECKS["C05"] = ("exploration", "differential trace PBT: interleaved pull/call/y
 CHECKS["C06"] = ("fault_enumeration", "exhaustive single-fault injection per generated case, differential vs the stdlib under the same fault",
   "For each generated case EVERY use (pull incl. end-of-data pull, call) of every source/callable is failed in turn with a planned exception object; the asynchronous run must deliver the same items, raise that very object, and (iterator tools) show the same event log as the stdlib under the same fault.",
   "single faults only; StopIteration-family exceptions are not injected; bounded inputs", "4/C06")
+CHECKS["C03"] = ("exploration", "metamorphic PBT: same case under generated sync/async flavour assignments vs the all-sync run; return-shape oracle",
+  "Each generated case (optionally with one planned fault) is re-run under generated assignments of 6 iterable flavours and 5 callable flavours; items, result and exception must equal the all-synchronous run; every library callable must return an awaitable / async iterator / async context manager.",
+  "baseline is the library's own all-sync run (agreement with the stdlib is C01/C02); 6 assignments per case in quick", "4/C03")
 REASONS = {}
 props = [json.loads(l)["id"] for l in open(os.path.join(HERE, "properties.jsonl"))]
 checks = []
